@@ -145,8 +145,9 @@ def run(prop, report, tier, seed):
     report.assume("producer keeps valid and token steady until accepted (stream protocol); exhaustive G-mode at "
                   "reduced widths (1-4 bit payload alphabets), realistic widths only sampled in T-mode")
     report.assume("FHDL netlist semantics = litex/gen/sim/core.py (compiled stepper cross-checked against it)")
-    stats = run_batches(FAMILY, report, _batches(cfgs, 14), invs, props,
-                        spec_budget=80000 if tier == "quick" else 400000)
+    stats = run_batches(FAMILY, report, _batches(cfgs, 14 if tier == "quick" else 6), invs, props,
+                        spec_budget=80000 if tier == "quick" else 600000,
+                        total_budget=900000 if tier == "quick" else 3000000)
     report.add(duts_explored=len(stats), clauses=invs + props, per_dut=stats)
     run_tmode(report, prop, tier, seed)
     report.cov["exhaustive"] = True
